@@ -1,5 +1,6 @@
 """C18 -- federated sources and relationship navigation equal a scan of the data."""
 import itertools, json
+import os as _os
 import z3
 from vf.pyvc.lib import REG
 from contracts import stores as K, filters as KF
@@ -54,6 +55,12 @@ def run(chk):
                 root = tempfile.mkdtemp(dir=fs_root); sink = stix2.FileSystemSink(root, allow_custom=True)
                 for o in m: sink.add(o)
                 comp.add_data_source(stix2.FileSystemSource(root, allow_custom=True))
+            elif n_case[0] % 3 == 1 and len(m) >= 2:
+                # every third partition: a memory member that gets its content in two deliveries -- objects first, then a bundle file holding the rest (possibly other versions of ids it holds)
+                h = len(m) // 2; ms = MemorySource(stix_data=list(m[h:]))
+                path = _os.path.join(fs_root, f'delivery{n_case[0]}_{mi}.json')
+                with open(path, 'w') as fh: fh.write(stix2.v21.Bundle(list(m[:h]), allow_custom=True).serialize())
+                ms.load_from_file(path); comp.add_data_source(ms)
             else: comp.add_data_source(MemorySource(stix_data=list(m)))
         union = {key(o): o for m in members for o in m}
         for oid in {k[0] for k in union}:
